@@ -51,8 +51,10 @@ class DataSetReadMapper:
         index = None if args.clean_start else find_stored_index(args)
 
         if index is None:
+            # if the reference is replaced while it is being indexed, the stored entry must not match the new version
+            reference_mtime = os.path.getmtime(os.path.abspath(args.reference))
             index = index_reference(self.aligner, args)
-            store_index(index, args)
+            store_index(index, args, reference_mtime)
         return index
 
     def map_reads(self, args):
@@ -106,7 +108,7 @@ def find_stored_index(args):
     return None
 
 
-def store_index(index, args):
+def store_index(index, args, reference_mtime=None):
     reference_filename = os.path.abspath(args.reference)
     index = os.path.abspath(index)
 
@@ -114,7 +116,8 @@ def store_index(index, args):
         converted_indexes = json.load(f_in)
     converted_indexes[reference_filename] = {
         'index_filename': index,
-        'reference_mtime': os.path.getmtime(reference_filename),
+        # the time stamp of the reference the index was built from, taken before it was read
+        'reference_mtime': os.path.getmtime(reference_filename) if reference_mtime is None else reference_mtime,
         'index_mtime': os.path.getmtime(index),
         'kmer_size': KMER_SIZE[args.data_type]
     }
